@@ -90,6 +90,24 @@ theorem tokenize_ref (c : Char) (w post : List Char) (hc : isWord c = true) (hw 
   rw [tokenize_name [c] w post hw, tokenize_after_name _ post hpost]
   simp
 
+/-- a `$`-free prefix is copied and the rest is scanned as if it stood alone -/
+theorem inlineGo_prefix (env : Env) (p t : List Char) (hp : '$' ∉ p) (hne : p ≠ []) (pd : Bool) :
+    inlineGo env (.copy pd) (p ++ t) = (inlineGo env (.copy false) t).app p := by
+  induction p generalizing pd with
+  | nil => exact absurd rfl hne
+  | cons c cs ih =>
+    have hc : c ≠ '$' := fun e => hp (by simp [e])
+    have hcs : '$' ∉ cs := fun h => hp (by simp [h])
+    cases cs with
+    | nil => simp [inlineGo, hc]
+    | cons d ds =>
+      have := ih hcs (by simp) false
+      simp only [List.cons_append] at this ⊢
+      rw [inlineGo]
+      simp only [hc, if_false]
+      rw [this, Res.app_app]
+      rfl
+
 /-! ### the dict -/
 
 theorem get_set_same (e : Env) (n v : List Char) : (e.set n v).get n = some v := by
